@@ -341,6 +341,26 @@ pub fn run_c07(tier: Tier) -> i32 {
                     fails.push(("C07-deadline-stretched".into(), format!("one context used for three JSON requests, the second and third written 600 ms after the first: time left on the wire {first:?}, {second:?}, {again:?} (expected 60 s, 59.4 s, 59.4 s)")));
                 }
             }
+            // a stated remainder the receiver's clock cannot express (a caller whose deadline is the
+            // last instant of its clock; a peer that writes u64::MAX seconds for "never") is decoded
+            // as far away - never earlier than the largest span tarpc supports (2 years), let alone
+            // as the 10 s default (seeded change C07n)
+            {
+                let now = tokio::time::Instant::now().into_std();
+                for secs in [u64::MAX, 1u64 << 63, 1u64 << 40, 100_000_000_000] {
+                    let js = format!(r#"{{"Request":{{"context":{{"deadline":{{"secs":{secs},"nanos":0}},"trace_context":{{"trace_id":[1,0,0,0,0,0,0,0,0,0,0,0,0,0,0,0],"span_id":2,"sampling_decision":"Sampled"}}}},"id":9,"message":3}}}}"#);
+                    match std::panic::catch_unwind(|| serde_json::from_str::<tarpc::ClientMessage<u32>>(&js)) {
+                        Ok(Ok(tarpc::ClientMessage::Request(r))) => {
+                            let d = r.context.deadline.checked_duration_since(now);
+                            if d.map(|d| d < std::time::Duration::from_secs(2 * 365 * 86_400)).unwrap_or(true) {
+                                fails.push(("C07-deadline-earlier".into(), format!("a JSON request stating {secs} s left was decoded as now+{d:?}: earlier than the caller's deadline and than any span tarpc supports")));
+                            }
+                        }
+                        Ok(other) => fails.push(("C07-default-deadline".into(), format!("request with {secs} s left rejected: {:?}", other.map(|_| ()).map_err(|e| e.to_string())))),
+                        Err(_) => fails.push(("C07-deadline-panic".into(), format!("decoding a request with {secs} s left panicked: {}", crate::mock::take_panic()))),
+                    }
+                }
+            }
             // ... and a deadline that IS there, in the documented format, written by a peer that is
             // not this tree, is the deadline (not the default): 500 ms, 60 s, 1 hour
             let now = tokio::time::Instant::now().into_std();
